@@ -87,9 +87,12 @@ class Ctx:
             self.assumptions.append(text)
 
     def drift(self, what):
+        """An implementation-level difference with the model that does not falsify the property.  The first 20 are printed
+        and kept; the others are only counted (`drift_total` in the evidence, one summary line at the end)."""
+        self.cov['drift_total'] = self.cov.get('drift_total', 0) + 1
         if len(self.cov['drift']) < 20:
             self.cov['drift'].append(what)
-        print('DRIFT property=%s %s' % (self.pid, what))
+            print('DRIFT property=%s %s' % (self.pid, what))
 
     # ---- violations -------------------------------------------------
     def violation(self, key, what, case, module=None, fn='replay_case'):
@@ -115,6 +118,8 @@ class Ctx:
     # ---- end --------------------------------------------------------
     def finish(self):
         self.cov['distinct_nontrivial'] = len(self._distinct)
+        if self.cov.get('drift_total', 0) > len(self.cov['drift']):
+            print('DRIFT property=%s ... %d more lines of the same kind not printed' % (self.pid, self.cov['drift_total'] - len(self.cov['drift'])))
         for key, what in sorted(self.known.items()):
             print('KNOWN-FINDING: property=%s %s: %s' % (self.pid, key, what))
         for key, v in sorted(self.violations.items()):
